@@ -405,6 +405,22 @@ pub fn ring_poly_divrem(s: &mut Src) -> R {
     ob!(a == &(&q * &b) + &r, "Poly::div_rem::a==q*b+r");
     ob!(r.is_zero() || r.lead_deg() < b.lead_deg(), "Poly::div_rem::remainder-degree-smaller");
     ob!(&a / &b == q && &a % &b == r, "Poly::div/rem-agree-with-div_rem");
+    // the Euclidean-domain operations on F_5[x], zero operands included
+    use yui::{EucRing, Ring};
+    let z = P::zero();
+    for (x, y) in [(&a, &b), (&b, &a), (&z, &b), (&b, &z), (&z, &a), (&a, &z)] {
+        let dv = x.divides(y);
+        // (the library's convention: zero divides nothing, not even zero)
+        ob!(dv == (!x.is_zero() && (y % x).is_zero()), "Poly::divides-iff-nonzero-and-remainder-zero");
+        if x.is_zero() && y.is_zero() { continue; }
+        let g = P::gcd(x, y);
+        ob!(!g.is_zero() && (x % &g).is_zero() && (y % &g).is_zero(), "Poly::gcd-divides-both");
+        ob!(g == g.normalized() && g == P::gcd(y, x), "Poly::gcd-normalised-and-symmetric");
+        let (d, s1, t1) = P::gcdx(x, y);
+        ob!(d == g && &(&s1 * x) + &(&t1 * y) == d, "Poly::gcdx-bezout");
+        let l = P::lcm(x, y);
+        ob!((&l * &g).normalized() == (x * y).normalized(), "Poly::lcm*gcd~a*b");
+    }
     Ok(())
 }
 
